@@ -315,7 +315,11 @@ def check_cases(chk: Check, cases, fixed: bool):
             unexplained |= judge(run.session_reads, run.session_diffs, run.session_rorder, 'inside the append session')
             if run.outcome[0] == 'Added' and not unexplained:
                 for k, (a, b) in enumerate(zip(run.session_reads, run.outcome[1])):
-                    if a is not None and json.loads(json.dumps(a[:2])) != json.loads(json.dumps(b[:2])):
+                    # (indices added in the session come from the cache — the very objects that were added; the ones
+                    #  that were in the file before are read from the file both times and must agree exactly)
+                    # (a read that FAILED on one side only is the oracle's business: F-C03e shows after the close only)
+                    if a is not None and k < c['append_at'] and a[0] == 'ok' and b[0] == 'ok' and \
+                            json.loads(json.dumps(a[:2])) != json.loads(json.dumps(b[:2])):
                         chk.broken('correspondence:append-session', f'{c["uid"]}: trajectory {k} reads differently inside '
                                                                     'the append session and after reopening', c)
         if unexplained or mo is None or (run.outcome[0] == 'Refused' and run.outcome[1] == 0):
